@@ -540,7 +540,7 @@ def generator_half(ctx, tmpdir, horizons):
 
 # ---------------- driver ----------------
 def run(ctx):
-    ctx.prove()
+    ctx.prove(props=["C10", "C10_testset"])
     rng = ctx.rng
     n_random = 170 if ctx.quick else 3000
     cases = gen_cases(rng, n_random)
@@ -616,7 +616,7 @@ def run(ctx):
                        "rounding to zero or a loaded size below n; plus gen(prefix, horizons) with the routing problems captured")
     ctx.assumptions.append("coefficients are dyadic so floats are exact; a loaded float x is identified with the integer z such that "
                            "x == z/100 as doubles; float rounding inside evaluate_Ising on reloaded data is not part of the claim")
-    ctx.assumptions.append("part (ii) (file names, np.savez/np.load round trip, convenience()) is checked on the implementation only")
+    ctx.assumptions.append("np.savez/np.load are library I/O (oracle load (save d) = d in C10_testset.v); the rest of the generator half is modelled in TestFeas.v")
     for case, ising, obs in kept[20:23]:
         ctx.sample({"input": case_json(case, ising), "file": obs["text"].split("\n")[1:], "loaded": repr(obs["load"][1:])})
     mism, err = ctx.coq_mismatches("rec", HEADER, "ccase", "check_ccase", terms, shard=120)
@@ -637,8 +637,12 @@ def run(ctx):
                       {"correspondence": "Export.check_tcase", "fields": "1 lines of the file 2 load_text on the lines 3 bytes of the file 4 load_bytes on the bytes", "tags": tags,
                        "input": case_json(case, ising), "file": obs["text"].split("\n")[1:], "loaded": repr(obs["load"]),
                        "model_export_text": model}, False)
+    # the generator half: test_feasibility / convenience / load_spins / file names (model + tie)
+    from props import c10_testset
+    c10_testset.run_part(ctx)
     if ctx.tier == "thorough":
         ctx.coqchk("VQP.C10")
+        ctx.coqchk("VQP.C10_testset")
 
 
 def replay(ctx, data):
